@@ -199,6 +199,17 @@ class QGen:
     def seq_of_obj(self, evar, depth, allow_where=True):
         """(text of a sequence of objects hanging off the event, etype)"""
         src, etype = self.coll(evar)
+        if allow_where and depth > 0 and self.r.random() < 0.08:
+            # matching: keep the objects for which some object of another collection is close
+            v, t = self.var("w"), self.var("t")
+            was = self.uncond
+            self.uncond = False
+            src2, et2 = self.coll(evar)
+            self.uncond = was
+            self.shape.append("where_match")
+            cut = self.r.choice(["0.4", "1.0", "3.0"])
+            return (f"{src}.Where(lambda {v}: {src2}.Where(lambda {t}: DeltaR({v}.eta(), {v}.phi(), {t}.eta(), {t}.phi()) < {cut})"
+                    f".Count() {self.r.choice(['> 0', '== 0'])})"), etype
         if allow_where and self.r.random() < 0.4:
             v = self.var("w")
             src = f"{src}.Where(lambda {v}: {self.obj_bool(v, etype, depth - 1)})"
@@ -369,6 +380,9 @@ class QGen:
                 x, _ = self.obj_num(v2, et2, 0)
                 self.shape.append("col1d_inner_agg")
                 txt = f"{s}.Select(lambda {v}: {s2}.Where(lambda {v2}: {x} > {v}.pt()).Count())"
+            elif r.random() < 0.12:
+                self.shape.append("col1d_bool")
+                txt = f"{s}.Select(lambda {v}: {self.obj_bool(v, et, depth - 1)})"
             else:
                 x, _ = self.obj_num(v, et, depth - 1)
                 self.shape.append("col1d")
@@ -410,7 +424,7 @@ class QGen:
         r = self.r
         steps = []
         form = r.choice(["evt_single", "evt_tuple", "evt_dict", "per_object", "per_object_tuple", "two_step", "two_step_tuple",
-                         "flat_rows", "pair_rows"])
+                         "flat_rows", "pair_rows", "two_step_dict", "two_step_filtered"])
         depth = r.choice([1, 2, self.max_depth])
         self.shape.append(form)
         if r.random() < 0.25:
@@ -483,6 +497,45 @@ class QGen:
                 steps.append(["SelectMany", f"lambda {v}: {v}.{m}()"])
                 w = self.var("c")
                 steps.append(["Select", f"lambda {w}: {w} + 1"])
+        elif form == "two_step_dict":
+            # the common "collect the collections in a dict, then build the columns" pattern
+            s1, et1 = self.seq_of_obj("e", depth)
+            s2, et2 = self.seq_of_obj("e", depth)
+            steps.append(["Select", "lambda e: {'a': " + s1 + ", 'b': " + s2 + "}"])
+            d, q1, q2 = self.var("d"), self.var("j"), self.var("k")
+            was = self.uncond
+            self.uncond = False
+            x1, _ = self.obj_num(q1, et1, depth - 1)
+            x2, _ = self.obj_num(q2, et2, depth - 1)
+            self.uncond = was
+            acc = (lambda k: f"{d}.{k}") if r.random() < 0.5 else (lambda k: f"{d}['{k}']")
+            cols = ["'x': " + f"{acc('a')}.Select(lambda {q1}: {x1})", "'y': " + f"{acc('b')}.Select(lambda {q2}: {x2})",
+                    "'n': " + f"{acc('a')}.Count()"]
+            if r.random() < 0.4:
+                cols.append("'f': " + f"{acc('b')}.First().{r.choice(DOUBLE_METHODS)}()")
+            if r.random() < 0.4:
+                steps.append(["Where", f"lambda {d}: {acc('a')}.Count() > {r.choice(['0', '1'])}"])
+                self.shape.append("dict_where")
+                # evaluation is lazy: what is only used behind the filter is fetched only for events that pass it
+                for o in self.occ:
+                    o["uncond"] = False
+            steps.append(["Select", f"lambda {d}: " + "{" + ", ".join(cols) + "}"])
+        elif form == "two_step_filtered":
+            s_, et = self.seq_of_obj("e", depth)
+            steps.append(["Select", f"lambda e: {s_}"])
+            v, q = self.var("q"), self.var("j")
+            steps.append(["Where", f"lambda {v}: {v}.Count() {r.choice(['> 0', '> 1', '== 2'])}"])
+            for o in self.occ[1:]:
+                o["uncond"] = False  # anything but the filtered sequence itself sits behind the filter
+            v2 = self.var("q")
+            was = self.uncond
+            self.uncond = False
+            x, _ = self.obj_num(q, et, depth - 1)
+            self.uncond = was
+            if r.random() < 0.5:
+                steps.append(["Select", f"lambda {v2}: {v2}.Select(lambda {q}: {x})"])
+            else:
+                steps.append(["Select", f"lambda {v2}: ({v2}.First().{r.choice(DOUBLE_METHODS)}(), {v2}.Select(lambda {q}: {x}))"])
         elif form == "two_step":
             s, et = self.seq_of_obj("e", depth)
             steps.append(["Select", f"lambda e: {s}"])
